@@ -48,6 +48,17 @@ class K:
         return v
 
     @property
+    @logged
+    def prop2(self):             # a property whose getter is itself decorated
+        v = self.key + 8
+        return v
+
+    def store(self, x):          # stores into an attribute of the receiver before binding v
+        self.last = x
+        v = x + 9
+        return v
+
+    @property
     def prop(self):
         v = self.key + 4
         return v
